@@ -949,6 +949,30 @@ func (w *WAL) UnregisterObserver(id string) {
 	delete(w.observers, id)
 }
 
+// HandOverObservers registers the observers of this WAL with its successor and
+// notifies those that follow rotations. Without this an observer (replication)
+// keeps watching a closed WAL after the first rotation and never hears of a
+// write again.
+func (w *WAL) HandOverObservers(successor *WAL) {
+	if successor == nil || successor == w {
+		return
+	}
+
+	w.observersMu.RLock()
+	observers := make(map[string]WALEntryObserver, len(w.observers))
+	for id, observer := range w.observers {
+		observers[id] = observer
+	}
+	w.observersMu.RUnlock()
+
+	for id, observer := range observers {
+		successor.RegisterObserver(id, observer)
+		if follower, ok := observer.(WALRotationObserver); ok {
+			follower.OnWALRotated(successor)
+		}
+	}
+}
+
 // GetNextSequence returns the next sequence number that will be assigned
 func (w *WAL) GetNextSequence() uint64 {
 	w.mu.Lock()
